@@ -313,6 +313,7 @@ Definition canon_json (s : schema) (c : cas) : res ccas :=
 
 Record lstate := mkL {
   l_sofas : list csofa;              (* cas.sofas; members are filled by the %VIEWS pass *)
+  l_stab : list (xid * option text); (* the Sofa objects filed in the feature_structures dict: id -> sofaString *)
   l_tab : list xid;                  (* keys of the feature_structures dict *)
   l_fs : list (xid * cfs);           (* structures built so far; references still as the ids the document names *)
   l_max_id : Z; l_max_num : Z;
@@ -320,7 +321,9 @@ Record lstate := mkL {
 
 Fixpoint zaset {V} (k : Z) (v : V) (l : list (Z * V)) : list (Z * V) :=
   match l with [] => [(k, v)] | (k', v') :: r => if Z.eqb k k' then (k', v) :: r else (k', v') :: zaset k v r end.
-Definition sofa_text_tab (st : lstate) : list (xid * option text) := map (fun cs => (cs_id cs, cs_text cs)) (l_sofas st).
+(* `fs.sofa._offset_converter`: fs.sofa was resolved through feature_structures, i.e. it is a Sofa parsed from the document
+   (the sofa of the implicit _InitialView is not in that dict until the document mentions it) *)
+Definition sofa_text_tab (st : lstate) : list (xid * option text) := l_stab st.
 (* python names of the attributes handed to the constructor / setattr must be features of the type *)
 Definition attrs_known (ti : tinfo) (m : list (string * json)) : res unit :=
   fold_left (fun acc kv => do _ <- acc ;;
@@ -356,7 +359,7 @@ Definition load_fs (L : lex) (s : schema) (st : lstate) (e : entry) : res lstate
                                end
                              else Ok fv) ;;
                   Ok (mkCfs t (sort_feats fv'))) ;;
-      Ok (mkL (l_sofas st) (if zmem (fst e) (l_tab st) then l_tab st else l_tab st ++ [fst e]) (zaset (fst e) cf (l_fs st))
+      Ok (mkL (l_sofas st) (l_stab st) (if zmem (fst e) (l_tab st) then l_tab st else l_tab st ++ [fst e]) (zaset (fst e) cf (l_fs st))
               (Z.max (fst e) (l_max_id st)) (l_max_num st) (l_init st))
     end
   end.
@@ -366,16 +369,18 @@ Definition upsert_sofa (cs : csofa) (l : list csofa) : list csofa :=
   if existsb (fun x => String.eqb (cs_name x) (cs_name cs)) l
   then map (fun x => if String.eqb (cs_name x) (cs_name cs) then cs else x) l
   else l ++ [cs].
+(* the byte array the sofa refers to is parsed first when it is not there yet *)
+Definition prefetch_array (L : lex) (s : schema) (dict_form : bool) (es : list entry) (st : lstate) (m : list (string * json)) : res lstate :=
+  match alookup (refkey "sofaArray") m with
+  | Some (JInt r) =>
+      if Z.eqb r 0 || zmem r (l_tab st) then Ok st
+      else if dict_form && negb (zmem r (map fst es)) then Err EAttribute   (* .get(str(ref)) is None (a7ade58) *)
+      else fold_left (fun acc e2 => do a <- acc ;; if Z.eqb (fst e2) r then load_fs L s a e2 else Ok a) es (Ok st)
+  | _ => Ok st
+  end.
 Definition load_sofa (L : lex) (s : schema) (dict_form : bool) (es : list entry) (st : lstate) (e : entry) : res lstate :=
   let m := snd e in
-  (* the byte array the sofa refers to is parsed first when it is not there yet *)
-  do st1 <- match alookup (refkey "sofaArray") m with
-            | Some (JInt r) =>
-                if Z.eqb r 0 || zmem r (l_tab st) then Ok st
-                else if dict_form && negb (zmem r (map fst es)) then Err EAttribute   (* .get(str(ref)) is None (a7ade58) *)
-                else fold_left (fun acc e2 => do a <- acc ;; if Z.eqb (fst e2) r then load_fs L s a e2 else Ok a) es (Ok st)
-            | _ => Ok st
-            end ;;
+  do st1 <- prefetch_array L s dict_form es st m ;;
   match alookup "sofaID" m, alookup "sofaNum" m with
   | Some (JStr name), Some (JInt num) =>
     do ot <- opt_jstr (alookup "sofaString" m) ;;
@@ -389,7 +394,8 @@ Definition load_sofa (L : lex) (s : schema) (dict_form : bool) (es : list entry)
                | Some (JInt r) => if zmem r (l_tab st1) then Some r else None
                | _ => None end in
     let cs := mkCsofa (fst e) num name txt mime uri arr [] in
-    Ok (mkL (upsert_sofa cs (l_sofas st1)) (if zmem (fst e) (l_tab st1) then l_tab st1 else l_tab st1 ++ [fst e]) (l_fs st1)
+    Ok (mkL (upsert_sofa cs (l_sofas st1)) (zaset (fst e) txt (l_stab st1))
+            (if zmem (fst e) (l_tab st1) then l_tab st1 else l_tab st1 ++ [fst e]) (l_fs st1)
             (Z.max (fst e) (l_max_id st1)) (Z.max num (l_max_num st1))
             (l_init st1 || String.eqb name "_InitialView"))
   | _, _ => Err EValue
@@ -413,7 +419,7 @@ Definition load_view (st : res lstate) (kv : string * json) : res lstate :=
   do sofas <- (if existsb (fun x => String.eqb (cs_name x) (fst kv)) (l_sofas st) then Ok (l_sofas st, st)
                else let cs := mkCsofa (l_max_id st + 1) (l_max_num st + 1) (fst kv) None None None None [] in
                     Ok (l_sofas st ++ [cs],
-                        mkL (l_sofas st) (l_tab st) (l_fs st) (l_max_id st + 1) (l_max_num st + 1) (l_init st))) ;;
+                        mkL (l_sofas st) (l_stab st) (l_tab st) (l_fs st) (l_max_id st + 1) (l_max_num st + 1) (l_init st))) ;;
   let '(sofas, st) := sofas in
   do ms <- match jget K_MEMBERS (snd kv) with Some (JArr l) => mapM jint l | _ => Err EKey end ;;
   do _ <- fold_left (fun acc i => do _ <- acc ;; if zmem i (l_tab st) && negb (existsb (fun x => Z.eqb (cs_id x) i) sofas)
@@ -424,27 +430,27 @@ Definition load_view (st : res lstate) (kv : string * json) : res lstate :=
                                                                            (cf_feats (snd p))))
                            else p) (l_fs st) in
   let sofas' := map (fun x => if String.eqb (cs_name x) (fst kv) then set_members x (cs_members x ++ ms) else x) sofas in
-  Ok (mkL sofas' (l_tab st) fs' (l_max_id st) (l_max_num st) (l_init st)).
+  Ok (mkL sofas' (l_stab st) (l_tab st) fs' (l_max_id st) (l_max_num st) (l_init st)).
 
 Definition is_dict_form (d : json) : bool := match jget K_FS d with Some (JObj _) => true | _ => false end.
 Definition initial_sofa : csofa := mkCsofa 1 1 "_InitialView" None None None None [].
 
 Definition load_json (L : lex) (s : schema) (d : json) : res ccas :=
   do es <- fs_entries d ;;
-  let st0 := mkL [initial_sofa] [] [] 0 0 false in
+  let st0 := mkL [initial_sofa] [] [] [] 0 0 false in
   (* sofa-first pass *)
   do st1 <- fold_left (fun acc e => do a <- acc ;; if is_sofa_entry e then load_sofa L s (is_dict_form d) es a e else Ok a) es (Ok st0) ;;
   (* second pass *)
   do st2 <- fold_left (fun acc e => do a <- acc ;; if is_sofa_entry e then Ok a else load_fs L s a e) es (Ok st1) ;;
   (* post-processors *)
   let tab := l_tab st2 in
-  let st3 := mkL (l_sofas st2) tab (map (fun p => (fst p, resolve_fs tab (snd p))) (l_fs st2)) (l_max_id st2) (l_max_num st2) (l_init st2) in
+  let st3 := mkL (l_sofas st2) (l_stab st2) tab (map (fun p => (fst p, resolve_fs tab (snd p))) (l_fs st2)) (l_max_id st2) (l_max_num st2) (l_init st2) in
   (* a document that does not mention the initial view (941f890) *)
   let st4 := if l_init st3 then st3
              else mkL (map (fun x => if String.eqb (cs_name x) "_InitialView"
                                      then mkCsofa (l_max_id st3 + 1) (l_max_num st3 + 1) (cs_name x) (cs_text x) (cs_mime x) (cs_uri x) (cs_arr x) (cs_members x)
                                      else x) (l_sofas st3))
-                      (l_tab st3) (l_fs st3) (l_max_id st3 + 1) (l_max_num st3 + 1) true in
+                      (l_stab st3) (l_tab st3) (l_fs st3) (l_max_id st3 + 1) (l_max_num st3 + 1) true in
   do views <- doc_views d ;;
   do st5 <- fold_left load_view views (Ok st4) ;;
   Ok (mkCcas (sort_by cs_id (map (fun x => set_members x (zsort (cs_members x))) (l_sofas st5))) (sort_by fst (l_fs st5))).
